@@ -196,7 +196,9 @@ pub struct Report {
 }
 
 pub fn profile_name() -> &'static str {
-    if cfg!(debug_assertions) {
+    if cfg!(target_pointer_width = "32") {
+        "debug-32bit"
+    } else if cfg!(debug_assertions) {
         "debug"
     } else {
         "release"
@@ -375,6 +377,16 @@ impl Args {
         let b = if self.thorough() { t } else { q };
         let b = (b as f64 * self.scale) as u64;
         (b / self.nshards.max(1)).max(1)
+    }
+    /// stride of the otherwise exhaustive sweeps: 1 natively; under Miri (about four orders of magnitude slower) every
+    /// `sweep`-th element starting at a seed-dependent offset, and the sub-space is then not listed as exhaustive
+    pub fn sweep(&self) -> (usize, usize) {
+        if cfg!(miri) {
+            let st = self.get_u64("sweep", 61).max(1) as usize;
+            ((self.seed as usize + 17 * self.shard as usize) % st, st)
+        } else {
+            (0, 1)
+        }
     }
     pub fn get(&self, k: &str) -> Option<&str> {
         self.extra.get(k).map(|s| s.as_str())
